@@ -74,7 +74,10 @@ def strand_of(location):
 
 def spans_origin(location) -> bool:
     """ travelling in iteration order the coordinate jumps back (forward strand) or forth (reverse strand) """
-    parts = raw_parts(location)
+    return _parts_span_origin(raw_parts(location))
+
+
+def _parts_span_origin(parts) -> bool:
     if len(parts) < 2:
         return False
     starts = [p[0] for p in parts]
@@ -221,5 +224,6 @@ def diff_dump(before: dict, after: dict) -> list[dict]:
         else:
             values = {}
         out.append({"section": "features", "type": old[0], "what": what, "qualifier_before_after": values,
+                    "spans_origin": _parts_span_origin(old[1]),
                     "location_before": str(old[1]), "location_after": str(new[1])})
     return out
